@@ -103,7 +103,7 @@ def _size(c):
 def evaluate(ctx, tag, cases, header, ok_fn="eng_ok"):
     """Evaluate eng_check on cases. Returns (results, infos)."""
     work = os.path.join(ctx.work, "coq_" + tag)
-    return fw.eval_cases(work, "engine", header, "case", "eng_check", ok_fn, [c["coq"] for c in cases])
+    return fw.eval_cases(work, getattr(ctx, "engine_proj", "engine"), header, "case", "eng_check", ok_fn, [c["coq"] for c in cases])
 
 
 def classify(case, res, mons):
@@ -165,13 +165,19 @@ def _dist(cases):
 
 def run_engine_check(ctx, profile, n_quick, n_thorough, extra_header="", monitors=(), *, release_obligation=True,
                      harness_args=(), multi_quick=0, multi_thorough=0, finalfn=(0, 0), neighbour_budget_s=None,
-                     assumptions=(), rule_extra="", not_covered=()):
+                     assumptions=(), rule_extra="", not_covered=(), proj="engine", pre_checks=()):
     """profile: a profile name, or a list of (profile, n_quick, n_thorough) to run several (n_* then ignored).
     multi_*: additionally run that many cases of the (first) profile with 2-6 plans concurrently on one Workstream.
     finalfn: (n_quick, n_thorough) calls of the direct Final.v <-> finalStates correspondence (C04)."""
     mons = _mon_specs(monitors)
     header = _header(extra_header, mons)
-    proofs_ok = ctx.static_and_proofs("engine")
+    # proj: the Coq project holding props/<pid>.v and the monitors (default coq/engine; a property's own project, e.g.
+    # coq/c02 with `-R ../engine Coercion.Engine` in its _CoqProject.head, builds coq/engine first as a dependency).
+    # pre_checks: callables f(ctx) run right after the proof step (e.g. mech.check_mechanisms, smgraph.check_smgraph).
+    ctx.engine_proj = proj
+    proofs_ok = ctx.static_and_proofs(proj)
+    for f in pre_checks:
+        f(ctx)
     if ctx.replay:
         return _replay(ctx, header, mons, release_obligation)
     quick = ctx.tier == "quick"
@@ -292,7 +298,7 @@ def run_engine_check(ctx, profile, n_quick, n_thorough, extra_header="", monitor
     if nff:
         fcases = _harness(ctx, "finalfn", nff, "cases_finalfn.jsonl")
         if fcases is not None:
-            fres, finfos = fw.eval_cases(os.path.join(ctx.work, "coq_finalfn"), "engine", BASE_HEADER, "fcase",
+            fres, finfos = fw.eval_cases(os.path.join(ctx.work, "coq_finalfn"), proj, BASE_HEADER, "fcase",
                                          "check_fcase", "fcase_ok", [c["coq"] for c in fcases])
             for info in finfos:
                 ctx.oblige("final_corr_ok shard %d (%d calls of finalStates): Final.final = finalStates" % (info["shard"], info["n"]),
